@@ -10,8 +10,8 @@ from harness.common import enc_str
 
 ID = "C13"
 BACKENDS = ("py", "rs")
-GEN_MODULES = ("Tables", "IsoPy:duration")
-MIN_THEOREMS = 32
+GEN_MODULES = ("Tables", "IsoPy:duration", "IsoRs:duration", "IsoRs:glue")
+MIN_THEOREMS = 37
 RULE = ("ops: pdur <string> = pendulum.parse of a duration string, pint <string> = pendulum.parse of an interval string. "
         "Duration strings: every non-empty subset of Y,M,D,H,M,S and the W form x values of 1..10 digits (zero, small, "
         "around 2^32, 2^64, the timedelta limit, leading zeros) x a fraction of 1..9 digits (sometimes up to 40; ties "
